@@ -487,7 +487,9 @@ class SInt:
         return self._cmp(o, lambda a, b: a >= b,
                          lambda al, ah, bl, bh: True if al >= bh else (False if ah < bl else None))
 
-    __hash__ = None
+    def __hash__(self):
+        # hashing (dict / set keys inside the code under test) pins the value: one path per value
+        return hash(self.__index__())
 
     def __bool__(self):
         if self.lo > 0 or self.hi < 0:
@@ -1001,8 +1003,8 @@ class Engine:
                 if not self._sat():
                     raise PathAbort()
                 v = self.solver.model().eval(x.t, model_completion=True).as_signed_long()
-                if len(excl) > 300:
-                    raise EngineLimit("concretize fan-out > 300")
+                if len(excl) > 4200:
+                    raise EngineLimit("concretize fan-out > 4200")
                 self.work.append(self.trace + [("ne", excl + (v,))])
                 self.solver.add(x.t == v)
         else:
